@@ -123,3 +123,86 @@ func TestRegressDialOnlyPeerBan(t *testing.T) {
 		}
 	}
 }
+
+// TestRegressSharedIPPeers: fixed scenarios with TWO peers on one IP address (nodes behind one NAT gateway / on one
+// host: same loopback address, different ports). The gater keeps one score per IP, Disconnect closes the connections of
+// one peer ID. Node 0 (own IP) hands out the penalties, nodes 1 and 2 share an address: one of them takes the IP's total
+// to the threshold (it is disconnected; the other one keeps its connection - engine behaviour, not asserted), then the
+// still connected one offends: through ApplyPenalty with a small amount, by exceeding the rate limit, or through a ban
+// path. Its IP's total is at/above the threshold, so "the peer is disconnected" applies to it at that penalty. Then both
+// peers and node 0 try to connect in every direction (refused while the ban is certain), the ban is awaited, both come
+// back and small penalties of both accumulate from a clean score. Variants: total reached by penalties of both peers;
+// a peer without listen address sharing 127.0.0.1 with a listening peer; three nodes on ::1.
+func TestRegressSharedIPPeers(t *testing.T) {
+	type script struct {
+		name  string
+		label string // label that shows that the decisive step was taken
+		s     escn
+		offs  []eev
+	}
+	base := func(sec string) escn {
+		return escn{On: true, N: 3, IPs: []int{2, 5, 5}, Group: []int{1, 2}, Shared: true, Security: sec, ExpiryS: 3, SweepMs: 100, Limit: 4, Penalty: 25, BlackOf: -1, DialOnly: -1}
+	}
+	dialOnly := base(p2p.ConnectionSecurityNone)
+	dialOnly.IPs, dialOnly.DialOnly = []int{2, 1, 1}, 2
+	v6 := base(p2p.ConnectionSecurityNoise)
+	v6.V6, v6.Group = true, []int{0, 1, 2}
+	victimShares := base(p2p.ConnectionSecurityTLS)
+	victimShares.IPs, victimShares.Group = []int{5, 5, 5}, []int{0, 1, 2}
+	second := "shared-ip:second-peer-penalised-after-ban-by-first:"
+	scripts := []script{
+		{"ApplyPenalty 40+60 on peer 1, then ApplyPenalty 10 on peer 2", second + "app-penalty", base(p2p.ConnectionSecurityNone),
+			[]eev{{Kind: "app", From: 1, To: 0, K: 40}, {Kind: "app", From: 1, To: 0, K: 60}, {Kind: "app", From: 2, To: 0, K: 10}}},
+		{"BanPeer(peer 1), then peer 2 exceeds the rate limit", second + "rate-limit(echo)", base(p2p.ConnectionSecurityTLS),
+			[]eev{{Kind: "app", From: 1, To: 0, K: 0}, {Kind: "burst", From: 2, To: 0, Burst: "over1"}}},
+		{"total reached by both peers (60 on peer 2, 40 on peer 1), then ApplyPenalty 5 on peer 2", second + "app-penalty", base(p2p.ConnectionSecurityNoise),
+			[]eev{{Kind: "app", From: 2, To: 0, K: 60}, {Kind: "app", From: 1, To: 0, K: 40}, {Kind: "app", From: 2, To: 0, K: 5}}},
+		{"undecodable request of peer 1, then BanPeer(peer 2)", second + "app-ban", base(p2p.ConnectionSecurityNone),
+			[]eev{{Kind: "badreq", From: 1, To: 0, Bytes: []byte{0x0a, 0x05, 0x01}}, {Kind: "app", From: 2, To: 0, K: 0}}},
+		{"rate limit bans peer 1 (4 x 25), then peer 2 names an unknown procedure", second + "unkreq", base(p2p.ConnectionSecurityTLS),
+			[]eev{{Kind: "burst", From: 1, To: 0, Burst: "over", Extra: 40}, {Kind: "unkreq", From: 2, To: 0}}},
+		{"listening peer and dial-only peer on 127.0.0.1: BanPeer(listener), then the dial-only peer exceeds the rate limit", second + "rate-limit(echo)", dialOnly,
+			[]eev{{Kind: "app", From: 1, To: 0, K: 0}, {Kind: "burst", From: 2, To: 0, Burst: "over1"}}},
+		{"three nodes on ::1: ApplyPenalty 100 on peer 1, then ApplyPenalty 1 on peer 2", second + "app-penalty", v6,
+			[]eev{{Kind: "app", From: 1, To: 0, K: 100}, {Kind: "app", From: 2, To: 0, K: 1}}},
+		{"penalising node on the same IP as both peers: ApplyPenalty 99+1 on peer 1, then peer 2 exceeds the rate limit", second + "rate-limit(echo)", victimShares,
+			[]eev{{Kind: "app", From: 1, To: 0, K: 99}, {Kind: "app", From: 1, To: 0, K: 1}, {Kind: "burst", From: 2, To: 0, Burst: "over1"}}},
+	}
+	results := make([]*seqResult, len(scripts))
+	var wg sync.WaitGroup
+	for i, sc := range scripts {
+		s := sc.s
+		s.Events = append(s.Events, eev{Kind: "req", From: 1, To: 0}, eev{Kind: "req", From: 2, To: 0})
+		s.Events = append(s.Events, sc.offs...)
+		s.Events = append(s.Events,
+			eev{Kind: "dial", From: 2, To: 0}, // the second peer tries to come back
+			eev{Kind: "dial", From: 1, To: 0}, // the first one too
+			eev{Kind: "dial", From: 0, To: 2}, // outbound attempt towards the banned IP
+			eev{Kind: "await", From: 1, To: 0},
+			eev{Kind: "await", From: 2, To: 0},
+			eev{Kind: "dial", From: 1, To: 0},
+			eev{Kind: "dial", From: 2, To: 0},
+			eev{Kind: "app", From: 2, To: 0, K: 7},
+			eev{Kind: "app", From: 1, To: 0, K: 8}) // 7+8 on one IP from a clean score
+		wg.Add(1)
+		go func(i int, s escn) {
+			defer wg.Done()
+			results[i] = runScenarioRobust(s)
+		}(i, s)
+	}
+	wg.Wait()
+	for i, sc := range scripts {
+		res := results[i]
+		switch {
+		case res.violation != "":
+			t.Errorf("C18 violated (two peers on one IP, %s; 3 attempts): %s\nhistory:\n%s", sc.name, res.violation, res.render())
+		case res.infra != "":
+			evid.R.Inconclusive("shared-IP regression scenario %q dropped: %s", sc.name, res.infra)
+		default:
+			if !res.labels[sc.label] {
+				evid.R.Note("shared-IP regression script %q: the second peer was not penalised while connected and banned (label %s missing; slow run?)", sc.name, sc.label)
+			}
+			register("e2e-shared-ip-regress", res)
+		}
+	}
+}
